@@ -242,7 +242,7 @@ Src HistSim::pickSrc(size_t opIndex, size_t arg, const std::string& bytes, bool 
     want = (h & 1) ? Src::Lit : Src::JsL;
   else if (opt.replica == 'C')
     want = copied[(h >> 8) % 8];
-  else if (linkedHint)
+  else if (linkedHint)  // replica 0 and the mixed replica 'M': as the plan says
     want = (h & 1) ? Src::Lit : Src::JsL;
   else
     want = copied[(h >> 8) % 8];
@@ -629,6 +629,24 @@ void HistSim::endOp(Judge& j, const Op& op, size_t ix) {
     obs.u(j.actual);
   pruneRefs();
   checkAll(op, ix, relaxed, j.doc);
+  collectLinkedBuffers();
+}
+
+// Model and documents agree at this point. A linked string's buffer belongs to the caller, who may
+// release it as soon as no value refers to it: do so, so that a value that still (wrongly) points
+// into it is caught by the next walk.
+void HistSim::collectLinkedBuffers() {
+  if (!real_ || (opt.replica != 0 && opt.replica != 'M'))
+    return;
+  std::set<std::string> live;
+  for (auto& ds : docs_)
+    visitc(ds.model, [&](const Val& x) {
+      if (x.k == K::Str && x.linked)
+        live.insert(x.s);
+    });
+  size_t n = arena_.collect(live);
+  if (n)
+    count("probe.linked_buffers_released", n);
 }
 
 void HistSim::checkAll(const Op& op, size_t ix, bool relaxedDoc, int relaxedIdx) {
